@@ -111,7 +111,7 @@ func GenPyPI(r *rand.Rand) string {
 		s += Pick(r, ".dev", "dev", "-dev", "_dev", ".DEV") + Pick(r, "", "0", "1", "2")
 	}
 	if r.Intn(5) == 0 {
-		s += "+" + Pick(r, "a", "A", "1", "01", "a.1", "1.a", "a-b", "ab", "2", "a_1", "1.2", "abc.1.x", "ABC", "abc", "18446744073709551616", "a-b_c", "ubuntu-20_04", "Ubuntu.1", "x_y-z.1", "CPU")
+		s += "+" + Pick(r, "a", "A", "1", "01", "a.1", "1.a", "a-b", "ab", "2", "a_1", "1.2", "abc.1.x", "ABC", "abc", "18446744073709551616", "a-b_c", "ubuntu-20_04", "Ubuntu.1", "x_y-z.1", "CPU", "3e5f1a2", "1a2b", "git.3e5f1a2", "git.abc1234", "0a", "1A.2")
 	}
 	if r.Intn(40) == 0 {
 		s = Pick(r, " ", "\t", " ") + s + Pick(r, " ", "\n", " ", "")
